@@ -2,6 +2,7 @@ import ScyllaVerif.Model.Util
 import ScyllaVerif.Model.Retry
 import ScyllaVerif.Model.Exec
 import ScyllaVerif.Model.RetryFrames
+import ScyllaVerif.Model.RetryPager
 /-! Line-protocol driver for C06 (deterministic: the implementation's line is ignored).
 
 * `dec <policy>/<i|n> - <cl>:<err>;<cl>:<err>;…`  — one retry session fed a history; prints its decisions.
@@ -12,7 +13,7 @@ import ScyllaVerif.Model.RetryFrames
   attempts beyond the scripted outcomes succeed.  Prints the attempt log, the decisions, the result, the
   number of sessions created. -/
 namespace ScyllaVerif.Drive.C06
-open ScyllaVerif.Util ScyllaVerif.Retry ScyllaVerif.Exec ScyllaVerif.RetryFrames
+open ScyllaVerif.Util ScyllaVerif.Retry ScyllaVerif.Exec ScyllaVerif.RetryFrames ScyllaVerif.RetryPager
 
 def clName : Consistency → String
   | .any => "any" | .one => "one" | .two => "two" | .three => "three" | .quorum => "quorum" | .all => "all"
@@ -280,6 +281,10 @@ def parseWireOutcome (s : String) : Option Outcome :=
   else if s == "inv" then some (.fail (.dbError .invalid))
   else if s == "cl" then some (.fail .brokenConnection)
   else if s == "unp" then some (.fail (.dbError .unprepared))
+  else if s == "slow" then some .ok          -- the answer comes late; what that means depends on the request timeout
+  else if s == "gres" then some (.fail .cqlResultParseError)
+  else if s == "gerr" then some (.fail .cqlErrorParseError)
+  else if s == "gsup" then some (.fail .unexpectedResponse)
   else none
 
 def kvOf (ws : List String) (k : String) : Option String :=
@@ -299,9 +304,16 @@ def parsePrepTok (s : String) : Option PrepTok :=
   else if s == "pcl" then some (.err .brokenConnection)
   else none
 
-/-- a scripted statement-frame answer and whether an UNPREPARED names a known id (`unpx`: it does not) -/
-def parseWireStmt (s : String) : Option (Outcome × Bool) :=
-  if s == "unpx" then some (.fail (.dbError .unprepared), false) else (parseWireOutcome s).map (·, true)
+/-- a scripted statement-frame answer, whether an UNPREPARED names a known id (`unpx`: it does not), whether the
+answer comes after 400 ms (`slow`) -/
+structure WireAns where
+  o : Outcome
+  idKnown : Bool
+  slow : Bool
+
+def parseWireStmt (s : String) : Option WireAns :=
+  if s == "unpx" then some ⟨.fail (.dbError .unprepared), false, false⟩
+  else (parseWireOutcome s).map (fun o => ⟨o, true, s == "slow"⟩)
 
 def wireErrKind : Err → String
   | .dbError (.unavailable _) => "un" | .dbError .isBootstrapping => "bs" | .dbError (.readTimeout _ _ _) => "rt"
@@ -309,14 +321,17 @@ def wireErrKind : Err → String
   | .dbError (.writeTimeout _ _) => "wt" | .dbError .invalid => "inv" | .dbError .unprepared => "unp"
   | .dbError _ => "db-other"
   | .brokenConnection => "cl" | .repreparedIdChanged => "idchg" | .repreparedIdMissingInBatch => "idmiss"
-  | .unableToAllocStreamId => "alloc" | _ => "attempt-other"
+  | .unableToAllocStreamId => "alloc" | .cqlResultParseError => "resparse" | .cqlErrorParseError => "errparse"
+  | .unexpectedResponse => "unexpected" | _ => "attempt-other"
+
+def okAns : WireAns := ⟨.ok, true, false⟩
 
 /-- The answers seen by the attempt that starts at statement cursor `c` / PREPARE cursor `pc` of the request's two
 scripts (each is one stream over the whole request; the model's answers are per attempt).  "The id changed" is
 relative to the id the statement object holds: for a prepared statement that is the usual id; a QUERY with values
 prepares afresh in every attempt (`connection.prepare`, any id is taken), so its re-prepare "changes the id" iff it
 answers differently from that attempt's first PREPARE. -/
-def wireAnswers (kind : StmtKind) (script : List (Outcome × Bool)) (preps : List PrepTok) (c pc : Nat) : Answers :=
+def wireAnswers (kind : StmtKind) (script : List WireAns) (preps : List PrepTok) (c pc : Nat) : Answers :=
   let tok := fun j => preps.getD (pc + j) .same
   let plain : PrepTok → PrepAnswer := fun t => match t with | .same => .ok | .other => .idChanged | .err e => .err e
   let prep : Nat → PrepAnswer := fun j =>
@@ -326,61 +341,116 @@ def wireAnswers (kind : StmtKind) (script : List (Outcome × Bool)) (preps : Lis
          | .err e => .err e
          | t => if t == tok 0 then .ok else .idChanged)
     else plain (tok j)
-  ⟨fun j => (script.getD (c + j) (.ok, true)).1, prep, fun j => (script.getD (c + j) (.ok, true)).2⟩
+  ⟨fun j => (script.getD (c + j) okAns).o, prep, fun j => (script.getD (c + j) okAns).idKnown⟩
 
 def prepareCount (fs : List Frame) : Nat := (fs.filter (fun f => match f with | .prepare _ => true | _ => false)).length
 
-/-- (statement cursor, PREPARE cursor) at the start of attempt `k`. -/
-def wireCursor (kind : StmtKind) (script : List (Outcome × Bool)) (preps : List PrepTok) (rounds : Nat) :
+/-- (statement cursor, PREPARE cursor) at the start of attempt `k` of a run that starts at `(c0, pc0)`. -/
+def wireCursor (kind : StmtKind) (script : List WireAns) (preps : List PrepTok) (rounds c0 pc0 : Nat) :
     Nat → Nat × Nat
-  | 0 => (0, 0)
+  | 0 => (c0, pc0)
   | k + 1 =>
-    let (c, pc) := wireCursor kind script preps rounds k
+    let (c, pc) := wireCursor kind script preps rounds c0 pc0 k
     let fr := (attempt kind (wireAnswers kind script preps c pc) rounds).frames
     (c + (stmtAnswers fr).length, pc + prepareCount fr)
 
-/-- One logical request of a `wire` case: statement frames and PREPARE frames put on the wire, result (error kind).
-`implTok` = the implementation's token for this request: when the plan ran out after a connection had been closed,
-the driver's plan may end with a second, now connection-less entry for that node (the load-balancing policy
-computes the fallback part of the plan lazily, after the liveness change - C05's subject), and the caller then gets
-the pool error instead of the last attempt's error; this one substitution is accepted. -/
-def wireRequest (p : Policy) (idem : Bool) (cl0 : Consistency) (n : Nat) (kind : StmtKind) (countPreps : Bool)
-    (script : List (Outcome × Bool)) (preps : List PrepTok) (implTok : String) : String :=
+/-- Result of one run of the execution core inside a `wire` request. -/
+structure WireRun where
+  stmtFrames : Nat
+  prepFrames : Nat
+  /-- consistency of every statement frame -/
+  cls : List Consistency
+  res : String
+  completed : Bool
+  /-- the policy decided `IgnoreWriteError`: the caller gets an empty result -/
+  ignored : Bool
+  exhaustedAfterClose : Bool
+
+/-- One run of the execution core (an unpaged request, or one page fetch) over the two scripts from `(c0, pc0)`;
+`tmo`: the effective request timeout in ms, if any - an answer that comes after 400 ms then makes the caller get
+`RequestTimeout` (`RetryFrames.runTimed`: the run is cut while that attempt is in flight). -/
+def wireRun (ex : ExecParams) (n : Nat) (kind : StmtKind) (script : List WireAns) (preps : List PrepTok)
+    (c0 pc0 : Nat) : WireRun :=
   let rounds := script.length + 2
   let answers : Nat → Answers := fun k =>
-    let cur := wireCursor kind script preps rounds k
+    let cur := wireCursor kind script preps rounds c0 pc0 k
     wireAnswers kind script preps cur.1 cur.2
-  let w := runWire p idem cl0 (List.replicate n Target.always) kind answers rounds
-  let res := if w.hung then "hung" else match w.trace.final with
+  let w := runWire ex.policy ex.idem ex.cl (List.replicate n Target.always) kind answers rounds
+  let perAttempt := w.frames.map (fun fr => (stmtAnswers fr).length)
+  let cls := ((w.trace.attempts.zip perAttempt).map (fun (a, m) => List.replicate m a.cl)).flatten
+  let nf := w.stmtAnswers.length
+  let slowHit := (List.range nf).any (fun j => (script.getD (c0 + j) okAns).slow)
+  let timedOut := slowHit && (match ex.timeout with | some t => decide (t < 400) | none => false)
+  let res := if timedOut then "err:timeout" else if w.hung then "hung" else match w.trace.final with
     | .completed _ => "ok" | .ignored _ => "ok"
     | .stopped e => "err:" ++ wireErrKind e
     | .exhausted (some (.attempt e)) => "err:" ++ wireErrKind e
     | .exhausted (some .pool) => "err:pool"
     | .exhausted none => "err:emptyplan"
     | .outOfFuel => "MODEL-OUT-OF-FUEL"
-  let np := (w.frames.map prepareCount).sum
-  let counts := s!"{w.stmtAnswers.length}/{if countPreps then toString np else "-"}"
   let closed := (List.range w.trace.attempts.length).any (fun k =>
     outcomeOf kind answers rounds k == .fail .brokenConnection)
-  if w.trace.final.planRanOut && closed && implTok == counts ++ ":err:pool" then implTok
-  else s!"{counts}:{res}"
+  let completed := !timedOut && (match w.trace.final with | .completed _ => true | _ => false)
+  let ignored := !timedOut && (match w.trace.final with | .ignored _ => true | _ => false)
+  ⟨nf, (w.frames.map prepareCount).sum, cls, res, completed, ignored, w.trace.final.planRanOut && closed && !timedOut⟩
+
+/-- The page fetches of a transparent pager (`RetryPager.pagedRun`: every page with `pageParams`), threading the
+script cursors from page to page. -/
+def wirePages (ex : ExecParams) (n : Nat) (kind : StmtKind) (script : List WireAns) (preps : List PrepTok) :
+    (pages j c pc : Nat) → List WireRun
+  | 0, _, _, _ => []
+  | p + 1, j, c, pc =>
+    let r := wireRun (pageParams ex j none) n kind script preps c pc
+    r :: (if r.completed then wirePages ex n kind script preps p (j + 1) (c + r.stmtFrames) (pc + r.prepFrames) else [])
+
+/-- One logical request of a `wire` case.  `implTok` = the implementation's token for this request: when the plan
+ran out after a connection had been closed, the driver's plan may end with a second, now connection-less entry for
+that node (the load-balancing policy computes the fallback part of the plan lazily, after the liveness change -
+C05's dynamic-liveness observation), and the caller then gets the pool error instead of the last attempt's error;
+this one substitution is accepted. -/
+def wireRequest (ex : ExecParams) (n : Nat) (kind : StmtKind) (pages : Option Nat) (countPreps : Bool)
+    (script : List WireAns) (preps : List PrepTok) (implTok : String) : String :=
+  let runs := match pages with
+    | none => [wireRun ex n kind script preps 0 0]
+    | some p => wirePages ex n kind script preps p 0 0 0
+  let counts := "+".intercalate (runs.map (fun r => toString r.stmtFrames))
+  let np := (runs.map (·.prepFrames)).sum
+  let cls := (runs.map (·.cls)).flatten
+  let last := runs.getLast?
+  -- a page "answered" by IgnoreWriteError is an empty non-rows result: on the first page the row stream cannot be
+  -- typed (error), on a later page the iteration simply ends there
+  let res := match last with
+    | some r => if pages.isSome && r.ignored then (if runs.length == 1 then "err:typecheck" else "ok") else r.res
+    | none => "ok"
+  let head := s!"{counts}/{if countPreps then toString np else "-"}"
+  let tail := "@" ++ listOrDash (cls.map clName) ","
+  let poolOk := match last with | some r => r.exhaustedAfterClose | none => false
+  if poolOk && implTok == head ++ ":err:pool" ++ tail then implTok else s!"{head}:{res}{tail}"
 
 def runWireCase (ws : List String) (impl : String) : String :=
   match kvOf ws "n", kvOf ws "pol", kvOf ws "idem", kvOf ws "kind", kvOf ws "cl", kvOf ws "via", kvOf ws "scripts" with
   | some n, some pol, some idem, some kind, some cl, some via, some scripts =>
     let p := if pol == "def" then some Policy.default else if pol == "down" then some Policy.downgrading
       else if pol == "fall" then some Policy.fallthrough else none
-    let cl0 := if cl == "q" then some Consistency.localQuorum else if cl == "serial" then some Consistency.serial
-      else if cl == "localserial" then some Consistency.localSerial else none
+    -- `q`: nothing is configured, the driver's default LOCAL_QUORUM applies
+    let clSet : Option (Option Consistency) := if cl == "q" then some none else if cl == "serial" then some (some .serial)
+      else if cl == "localserial" then some (some .localSerial) else if cl == "all" then some (some .all)
+      else if cl == "eachquorum" then some (some .eachQuorum) else none
     -- a QUERY without values is one frame; with values it is PREPARE + EXECUTE in every attempt; everything
     -- prepared goes through execute_raw_with_consistency; `batch`: prepare_batch has nothing to prepare (the
-    -- unprepared statement has no values / the CachingSession prepared it before); `batchv`: one PREPARE per attempt
-    let k : Option StmtKind := if kind == "exec" then some .execute
+    -- unprepared statement has no values / the CachingSession prepared it before); `batchv`: one PREPARE per attempt;
+    -- the pagers: `execute_iter` pages with EXECUTE, `query_iter` (no values) with QUERY
+    let k : Option StmtKind := if kind == "exec" || kind == "itere" then some .execute
       else if kind == "query" then (if via == "caching" then some .execute else some .query)
+      else if kind == "iterq" then some .query
       else if kind == "qvals" then some .queryValues
       else if kind == "batch" then some (.batch 0)
       else if kind == "batchv" then some (.batch 1) else none
-    let parseScript (sc : String) : Option (List (Outcome × Bool) × List PrepTok) :=
+    let pages : Option Nat := if kind == "itere" || kind == "iterq" then some (((kvOf ws "pages").bind String.toNat?).getD 3) else none
+    let cfg := (kvOf ws "cfg").getD "stmt"
+    let tmo : Option Nat := match (kvOf ws "tmo").bind String.toNat? with | some 0 => none | t => t
+    let tmoProfile := (kvOf ws "tmoat").getD "stmt" == "profile"
+    let parseScript (sc : String) : Option (List WireAns × List PrepTok) :=
       match sc.splitOn "~" with
       | [a] => ((a.splitOn ".").mapM parseWireStmt).map (·, [])
       | [a, b] => match (a.splitOn ".").mapM parseWireStmt, ((b.splitOn ".").filter (· ≠ "")).mapM parsePrepTok with
@@ -388,10 +458,22 @@ def runWireCase (ws : List String) (impl : String) : String :=
         | _, _ => none
       | _ => none
     let implToks := (words impl).drop 1
-    match n.toNat?, p, idem.toNat?, k, cl0, (scripts.splitOn "/").mapM parseScript with
-    | some n, some p, some idem, some k, some cl0, some scs =>
+    match n.toNat?, p, idem.toNat?, k, clSet, (scripts.splitOn "/").mapM parseScript with
+    | some n, some p, some idem, some k, some clSet, some scs =>
+      -- WHERE the policy / consistency / timeout are configured (harness/src/e2e/retry.rs builds exactly these)
+      let real : Profile := ⟨clSet.getD .localQuorum, p, if tmoProfile then tmo else none⟩
+      let onStmt := cfg == "stmt" || cfg == "both"
+      let sessionDefault : Profile :=
+        if cfg == "profile" then real
+        else if cfg == "handle" || cfg == "both" then ⟨.three, .fallthrough, none⟩
+        else ⟨.localQuorum, .default, if tmoProfile then tmo else none⟩
+      let stmtProfile : Option Profile :=
+        if cfg == "handle" then some real else if cfg == "both" then some ⟨.two, .fallthrough, none⟩ else none
+      let stmt : StmtCfg := ⟨idem != 0, if onStmt then clSet else none, if onStmt then some p else none,
+        if tmoProfile then none else tmo, stmtProfile⟩
+      let ex := if pages.isSome then pagingExecutorNew stmt sessionDefault else sessionParams stmt sessionDefault
       "retry " ++ " ".intercalate (scs.zipIdx.map (fun (sc, i) =>
-        wireRequest p (idem != 0) cl0 n k (via == "session") sc.1 sc.2 (implToks.getD i "")))
+        wireRequest ex n k pages (via == "session") sc.1 sc.2 (implToks.getD i "")))
     | _, _, _, _, _, _ => "bad-case"
   | _, _, _, _, _, _, _ => "bad-case"
 
